@@ -86,6 +86,7 @@ def run(ctx):
     _block_refs(ctx)
     _mem2reg(ctx)
     _fresh_insertions(ctx)
+    _typed_replacements(ctx)
     # R5
     opt = ctx.fn("ppci/api.py", "optimize")
     cfg = CFG(opt)
@@ -342,3 +343,140 @@ def _fresh_insertions(ctx):
                 ok = fresh(rel, cls, f, c.args[0], st)
                 ctx.ob("C03.R8", site, "the inserted object `%s` is constructed by the pass (ir.<Class>(...) here, or in a helper whose every return is such a construction)" % norm(c.args[0]), ok is True, construct="fresh:%s:%s" % (q, norm(c.args[0])), node=c)
     ctx.need(n_sites >= 9, "only %d insertion sites found in the optimisation passes" % n_sites)
+
+
+def _guards(node, fn):
+    """texts of the conditions that hold at node (enclosing tests with polarity, early exits), names not inlined"""
+    from .. import sym
+    return [norm(e) for e, pol in sym.conjuncts(node, fn, env={}) if pol]
+
+
+def _asserts_before(fn, node):
+    """texts of the conjuncts of assert statements of fn's own body list that precede node in the same statement list"""
+    from .. import sym
+    out = []
+    stmt = node
+    while getattr(stmt, "_parent", None) is not None and not isinstance(stmt, ast.stmt):
+        stmt = stmt._parent
+    par = getattr(stmt, "_parent", None)
+    for field in ("body", "orelse"):
+        lst = getattr(par, field, None)
+        if isinstance(lst, list) and stmt in lst:
+            for s in lst[:lst.index(stmt)]:
+                if isinstance(s, ast.Assert):
+                    out += [norm(c) for c in sym.flatten_bool(s.test)]
+    return out
+
+
+def _same_type(facts, a, b):
+    return a == b or ("%s is %s" % (a, b)) in facts or ("%s is %s" % (b, a)) in facts
+
+
+def _typed_replacements(ctx):
+    """C03.R9.  `old.replace_by(new)` rewires every user of old to new without looking at types (ir.Value.replace_by);
+    'operand types agree' therefore needs new.ty is old.ty at every call.  Each call site in ppci/opt is decided by the
+    idiom that establishes the type on that site; a site matching no idiom is a failed obligation."""
+    from .. import sym
+    ctx.rule("C03.R9", "type-preserving replacement: at every `old.replace_by(new)` of an optimisation pass the code itself establishes new.ty is old.ty (operand of the replaced binop, constructed with old.ty, found by a type-guarded search, looked up under a key that contains the type, or promoted only when all loads and stores agree)", floor=6)
+    project = ctx.project
+    sites = []
+    for rel, mod in sorted(project.modules.items()):
+        if not rel.startswith("ppci/opt/"):
+            continue
+        for q, fn in mod.defs.items():
+            if not isinstance(fn, ast.FunctionDef):
+                continue
+            for c in walk_no_nested(fn):
+                if isinstance(c, ast.Call) and isinstance(c.func, ast.Attribute) and c.func.attr == "replace_by" and len(c.args) == 1:
+                    sites.append((rel, q, fn, c))
+        # nested functions (mem2reg.rename/search)
+        for q, fn in mod.defs.items():
+            if isinstance(fn, ast.FunctionDef):
+                for inner in ast.walk(fn):
+                    if isinstance(inner, ast.FunctionDef) and inner is not fn:
+                        for c in walk_no_nested(inner):
+                            if isinstance(c, ast.Call) and isinstance(c.func, ast.Attribute) and c.func.attr == "replace_by" and len(c.args) == 1 and not any(s[3] is c for s in sites):
+                                sites.append((rel, q + "/" + inner.name, inner, c))
+    ctx.need(len(sites) >= 6, "replace_by call sites in ppci/opt: %d found, 8 confirmed by reading (floor 6)" % len(sites))
+    for rel, q, fn, c in sites:
+        old, new = norm(c.func.value), norm(c.args[0])
+        site = "%s:%s" % (rel, q)
+        what = "`%s.replace_by(%s)`: the new value has the type of the old one" % (old, new)
+        guards = _guards(c, fn)
+        ok, how = False, "no idiom establishes the type"
+        binding = None
+        if isinstance(c.args[0], ast.Name):
+            from .. import sym
+            binding = sym.nearest_def(c, new)
+        # I1: an operand of the replaced binary operation (the verifier guarantees a.ty is b.ty is ty on well-formed input)
+        if new in (old + ".a", old + ".b") and any(g in ("type(%s) is ir.Binop" % old, "isinstance(%s, ir.Binop)" % old) for g in guards):
+            ok, how = True, "operand of the replaced ir.Binop"
+        # I2: constructed with the old value's type
+        elif isinstance(binding, ast.Call) and norm(binding.func) in ("ir.Phi", "ir.Const", "ir.Undefined") and binding.args and old + ".ty" in (norm(binding.args[-1]), norm(sym.nearest_def(c, binding.args[-1].id) or binding.args[-1]) if isinstance(binding.args[-1], ast.Name) else ""):
+            ok, how = True, "constructed as %s(..., %s.ty)" % (norm(binding.func), old)
+        # I3: result of a typed summary function (every return is its argument or a constant of a type that is the argument's)
+        elif isinstance(binding, ast.Call) and norm(binding.func).startswith("self.") and len(binding.args) == 1 and norm(binding.args[0]) == old:
+            callee = project.find_method(project.cls(rel, q.split(".")[0]), norm(binding.func)[5:]) if "." in q else None
+            if callee is not None:
+                p = [a.arg for a in callee.args.args if a.arg != "self"][0]
+                rets = [r for r in walk_no_nested(callee) if isinstance(r, ast.Return) and r.value is not None]
+                bad = []
+                for r in rets:
+                    v = r.value
+                    if isinstance(v, ast.Name) and v.id != p:
+                        from .. import sym
+                        v = sym.nearest_def(r, v.id) or v
+                    if norm(v) == p and "isinstance(%s, ir.Const)" % p in _guards(r, callee):
+                        continue
+                    if isinstance(v, ast.Call) and norm(v.func) == "ir.Const" and len(v.args) == 3:
+                        t = norm(v.args[2])
+                        if _same_type(set(_asserts_before(callee, r)), t, p + ".ty"):
+                            continue
+                    bad.append("line %d: %s" % (r.lineno, norm(v)))
+                ok, how = bool(rets) and not bad, ("every return of %s is its argument (already a constant) or ir.Const(.., .., T) with T is %s.ty" % (callee.name, p)) if not bad else "; ".join(bad)
+        # I4: found by a search that only returns a store of the requested type
+        elif new.endswith(".value") and isinstance(c.args[0], ast.Attribute) and isinstance(c.args[0].value, ast.Name):
+            from .. import sym
+            b2 = sym.nearest_def(c, new[:-6])
+            if isinstance(b2, ast.Call) and norm(b2.func).startswith("self.") and len(b2.args) >= 2 and norm(b2.args[0]) == old and norm(b2.args[1]) == old + ".ty":
+                callee = project.find_method(project.cls(rel, q.split(".")[0]), norm(b2.func)[5:])
+                ps = [a.arg for a in callee.args.args if a.arg != "self"]
+                typ = ps[1]
+                rets = [r for r in walk_no_nested(callee) if isinstance(r, ast.Return) and r.value is not None and not (isinstance(r.value, ast.Constant) and r.value.value is None)]
+                bad = [("line %d: return %s" % (r.lineno, norm(r.value))) for r in rets if not _same_type(set(_guards(r, callee)), norm(r.value) + ".value.ty", typ)]
+                rebound = [n for n in ast.walk(callee) if isinstance(n, ast.Name) and n.id == typ and isinstance(n.ctx, ast.Store)]
+                ok = bool(rets) and not bad and not rebound
+                how = ("%s only returns a store guarded by `%s is <store>.value.ty`, called with %s.ty" % (callee.name, typ, old)) if ok else ("; ".join(bad) or "type parameter rebound")
+        # I5: looked up under a key that contains the type
+        elif isinstance(binding, ast.Subscript):
+            mp, key = norm(binding.value), norm(binding.slice)
+            keys = [n for n in ast.walk(fn) if isinstance(n, ast.Assign) and norm(n.targets[0]) == key]
+            stores = [n for n in ast.walk(fn) if isinstance(n, ast.Assign) and isinstance(n.targets[0], ast.Subscript) and norm(n.targets[0].value) == mp]
+            k_ok = bool(keys) and all(isinstance(k.value, ast.Tuple) and any(norm(e) == old + ".ty" for e in k.value.elts) for k in keys)
+            s_ok = bool(stores) and all(norm(s.targets[0].slice) == key and norm(s.value) == old for s in stores)
+            ok, how = k_ok and s_ok, "every key `%s` contains %s.ty and %s[%s] only ever holds the value the key was built from" % (key, old, mp, key) if (k_ok and s_ok) else "key without the type, or the map is filled otherwise"
+        # I6: mem2reg renaming - every value on the stack is a phi of phi_ty, a stored value or the Undefined of phi_ty; promotion requires all load and store types to be one type
+        elif rel == "ppci/opt/mem2reg.py" and new == "stack[-1]":
+            pr = ctx.fn("ppci/opt/mem2reg.py", "is_alloc_promotable")
+            rets = [r for r in walk_no_nested(pr) if isinstance(r, ast.Return) and r.value is not None and not (isinstance(r.value, ast.Constant) and r.value.value is False)]
+            env = {norm(n.targets[0]): norm(n.value) for n in ast.walk(pr) if isinstance(n, ast.Assign)}
+            t_ok = len(rets) == 1 and norm(rets[0].value) == "all((all_types[0] is ty for ty in all_types))" and env.get("all_types") == "load_types + store_types" \
+                and env.get("load_types") == "[load.ty for load in loads]" and env.get("store_types") == "[store.value.ty for store in stores]"
+            pm = ctx.fn("ppci/opt/mem2reg.py", "Mem2RegPromotor.promote")
+            env2 = {norm(n.targets[0]): norm(n.value) for n in ast.walk(pm) if isinstance(n, ast.Assign)}
+            p_ok = env2.get("phi_ty") == "all_types[0]" and env2.get("all_types") == "load_types + store_types" and env2.get("initial_value", "").startswith("ir.Undefined(") and env2.get("initial_value", "").endswith(", phi_ty)")
+            pp = ctx.fn("ppci/opt/mem2reg.py", "Mem2RegPromotor.place_phi_nodes")
+            phis = [n for n in ast.walk(pp) if isinstance(n, ast.Call) and norm(n.func) == "ir.Phi"]
+            ph_ok = len(phis) == 1 and norm(phis[0].args[-1]) == "phi_ty"
+            pushes = [norm(n.args[0]) for n in ast.walk(fn) if isinstance(n, ast.Call) and norm(n.func) == "stack.append"] + [norm(n.args[0]) for n in ast.walk(fn._parent) if isinstance(n, ast.Call) and norm(n.func) == "stack.append"]
+            st_ok = set(pushes) <= {"instruction", "instruction.value"}
+            callers = [n for n in ast.walk(ctx.fn("ppci/opt/mem2reg.py", "Mem2RegPromotor.on_function")) if isinstance(n, ast.Call) and norm(n.func) == "is_alloc_promotable"]
+            ok = t_ok and p_ok and ph_ok and st_ok and bool(callers)
+            how = "promotion requires every load type and stored value type to be one type (%s); phi type and initial value use it (%s, %s); the stack only receives phis and stored values (%s)" % (t_ok, p_ok, ph_ok, st_ok)
+        ctx.ob("C03.R9", site, what, ok, construct="typed-replace:%s<-%s" % (old, new), node=c, detail=how)
+    # the replaced load keeps its own type: find_store_backwards's type filter is also what keeps remove_redundant_stores from dropping a store of another width
+    fsb = ctx.fn("ppci/opt/load_after_store.py", "LoadAfterStorePass.find_store_backwards")
+    rs = ctx.fn("ppci/opt/load_after_store.py", "LoadAfterStorePass.remove_redundant_stores")
+    calls = [n for n in ast.walk(rs) if isinstance(n, ast.Call) and norm(n.func) == "self.find_store_backwards"]
+    ok = len(calls) == 1 and len(calls[0].args) >= 2 and norm(calls[0].args[1]) == norm(calls[0].args[0]) + ".value.ty"
+    ctx.ob("C03.R9", "ppci/opt/load_after_store.py:LoadAfterStorePass.remove_redundant_stores", "an earlier store is only removed when the later store to the same address writes a value of the same type (a narrower store does not overwrite a wider one)", ok, construct="redundant-store-type")
